@@ -570,7 +570,7 @@ def wl_tree(ctx, rng, case_no):
         for text, d in nodes:
             for k, piece in enumerate(text.split("\n")):
                 # a label line may be wrapped when narrow: collect lines until all characters are seen
-                need = [c for c in piece]
+                need = [c for c in piece if not c.isspace()]
                 seen = []
                 while len(seen) < len(need) and ln < len(lines):
                     line = lines[ln]
@@ -584,7 +584,7 @@ def wl_tree(ctx, rng, case_no):
                     ln += 1
                 if not ok:
                     break
-                if seen != [c for c in need if not c.isspace()]:
+                if seen != need:
                     ctx.violation("tree-nodes-not-in-depth-first-order-exactly-once",
                                   dict(wit, label=text, depth=d, seen="".join(seen)))
                     ok = False
